@@ -56,7 +56,6 @@ impl Decoder for ZmqCodec {
 
     fn decode(&mut self, src: &mut BytesMut) -> Result<Option<Self::Item>, Self::Error> {
         if src.len() < self.waiting_for {
-            src.reserve(self.waiting_for - src.len());
             return Ok(None);
         }
         match self.state {
